@@ -37,7 +37,7 @@ Proof. intros fs H. unfold expected_cmds. rewrite H. reflexivity. Qed.
 Print Assumptions C03_armed_stops.
 
 (* the premise of abstracting from time in this property's model: the code it models waits, polls and gives up
-   exactly where the model says (primitive codes in Proofs/W_*.v); re-extracted from the source on every run *)
+   with exactly the kinds of primitives the model accounts for (codes in Proofs/W_*.v); re-extracted from the source on every run *)
 Require Import GV.Gen.Consts GV.Proofs.W_server GV.Proofs.W_protocol.
 Theorem C03_time_abstraction : waits_server = (@cons Z 10%Z (@nil Z)) /\ waits_protocol = (@nil Z).
 Proof. exact (conj w_server w_protocol). Qed.
